@@ -31,13 +31,15 @@ where
         let n = x.nrows();
         let mut classes = Vec::with_capacity(nclasses);
         let mut likelihood = Array2::zeros((nclasses, n));
-        joint_log_likelihood
-            .iter()
-            .enumerate()
-            .for_each(|(i, (&key, value))| {
-                classes.push(key.clone());
-                likelihood.row_mut(i).assign(value);
-            });
+        // iterate the classes in sorted order: the map is rebuilt (and re-seeded) on every
+        // call, so its own iteration order would let ties between classes fall differently
+        // from one call to the next
+        let mut entries = joint_log_likelihood.iter().collect::<Vec<_>>();
+        entries.sort_unstable_by(|a, b| a.0.cmp(b.0));
+        entries.into_iter().enumerate().for_each(|(i, (&key, value))| {
+            classes.push(key.clone());
+            likelihood.row_mut(i).assign(value);
+        });
 
         // Identify the class with the maximum log likelihood
         *y = likelihood.map_axis(Axis(0), |x| {
